@@ -87,6 +87,11 @@ func TestC02(t *testing.T) {
 	for ci := 0; ci < nCases && r.Violations() < 5; ci++ {
 		rules := chainfx.LooseRules()
 		rules.MinBlockGap, rules.MinEmptyBlockGap = 1, 1
+		// sometimes empty blocks are (almost) never allowed: a build that can include nothing must fail
+		longEmptyGap := rng.IntN(4) == 0
+		if longEmptyGap {
+			rules.MinEmptyBlockGap = 3_600_000
+		}
 		tight := rng.IntN(3) == 0
 		if tight {
 			// a handful of transactions fill the block; the target decides between "skip" and "block full"
@@ -131,13 +136,22 @@ func TestC02(t *testing.T) {
 			}
 			var pool []*chain.Transaction
 			var desc []string
+			allInvalid := longEmptyGap && rng.IntN(2) == 0
+			if allInvalid {
+				n = 1 + rng.IntN(6)
+				r.Count("pools_with_only_unincludable_txs", 1)
+			}
 			for i := 0; i < n; i++ {
 				kind := "valid"
 				tx, err := w.GenTx(rng, g, now+1500) // expiry comfortably ahead of the build time
 				if err != nil {
 					t.Fatal(err)
 				}
-				switch x := rng.IntN(40); {
+				x := rng.IntN(40)
+				if allInvalid {
+					x = rng.IntN(6)
+				}
+				switch {
 				case x == 0:
 					kind = "expired"
 					tx, err = chainfx.Tx(chain.Base{Timestamp: (now/1000 - int64(1+rng.IntN(30))) * 1000, ChainID: rules.ChainID, MaxFee: 1 << 50}, tx.Actions, pick(rng, w))
